@@ -11,6 +11,8 @@ Stages
           under CPU sets of 1, 3 and 16 and every pixel must be cast exactly NumSamples times and
           written with its own value.
   scene   composite / transformed box objects and cameras against the exact SceneJudge oracle.
+  radiance  uniform emitters, a matte furnace and a matte floor under a spherical emitter through the
+          recursive and the bidirectional tracer at depth limits 1..60 against their closed forms.
 """
 import json
 import os
@@ -157,6 +159,15 @@ def scene_stage(ctx):
               sites={k[5:]: v for k, v in stats.items() if k.startswith("site:")})
 
 
+def radiance_stage(ctx):
+    """Scenes with closed-form radiance through RecursiveRayTracer and BidirPathTracer (RadianceJudge)."""
+    import solids
+    quick = ctx.tier == "quick"
+    solids.judge_stage(ctx, "radiance", ["c20-radiance", "floorsamples=%d" % (20000 if quick else 60000)],
+                       {"panic", "finite", "closed-form"}, judge="render/RadianceJudge",
+                       keyfn=lambda rec, clause: "%s:%s:%s" % (rec["site"], rec["kind"], clause))
+
+
 def run(ctx):
     ctx.rule = ("estimator: every (NumSamples <= 4 (6), MinSamples, criterion on/off, answer pattern) x 3 renderer "
                 "configurations x 4 pixels with seeded sample values; pixel pool: all interleavings of <= 3 (4) workers over <= 4 (6) "
@@ -169,3 +180,4 @@ def run(ctx):
     estimator_stage(ctx)
     pool_stage(ctx)
     scene_stage(ctx)
+    radiance_stage(ctx)
